@@ -21,6 +21,15 @@ Python → Lean
 * loky's reusable executor, as far as the NUMBER of live worker processes goes
   (`_ReusablePoolExecutor.get_reusable_executor` / `_resize` / `submit` → `_adjust_process_count`)
                                                                : `Pool`, `resize`, `submitEnsure`, `getReusableExecutor`
+* the `ThreadPool` of ONE `ThreadingBackend` instance (the instance may serve many `Parallel` calls: the one a
+  `parallel_config(backend=...)` block holds, or the nested instance `BatchedCalls` installs for the tasks of a batch)
+    `self._pool` / `self._pool._processes`, `self._n_jobs`     : `TBackend.pool`, `TBackend.nJobs`
+    `ThreadingBackend.configure` (after `effective_n_jobs`)    : `tConfigure`
+    `ThreadingBackend._get_pool` (called by every `submit`)    : `tGetPool`
+    `PoolManagerMixin.terminate`                               : `tTerminate`
+    `Parallel(n_jobs=n)(tasks)` (`_initialize_backend`, dispatches, `_terminate_and_reset`)        : `tPlain`
+    `with Parallel(n_jobs=n) as p:` (`__enter__`: configure; own calls do not configure; `__exit__`: terminate)
+                                                               : `tManaged`, `tBody`
 Import-free apart from the backend classes of `JoblibModel.Config`; total, computable.
 -/
 namespace JoblibModel.NJobs
@@ -228,5 +237,122 @@ def getReusableExecutor (cur : Option Pool) (same_args : Bool) (n_jobs : Nat) : 
   match cur with
   | some p => if same_args then resize p n_jobs else Pool.fresh n_jobs
   | none => Pool.fresh n_jobs
+
+/-! ## The `ThreadPool` of one `ThreadingBackend` instance across the calls it serves -/
+
+/-- `self._pool` (`none` = `None`; `some k` = a `ThreadPool` with `_processes = k`, i.e. `k` worker
+threads) and `self._n_jobs` (`0`: `configure` never ran). -/
+structure TBackend where
+  pool : Option Nat
+  nJobs : Nat
+deriving Repr, DecidableEq, Inhabited
+
+/-- A new instance (`_pool = None` is a class attribute). -/
+def TBackend.fresh : TBackend := ⟨none, 0⟩
+
+/-- `asIs`: the code. `keepLarger`: the pool-keeping variant used as a witness of why `terminate`
+and the lazy `_get_pool` matter: `terminate` leaves the pool of a shared instance alone and
+`_get_pool` rebuilds it only when it is smaller than `_n_jobs`. -/
+inductive TVariant
+  | asIs | keepLarger
+deriving Repr, DecidableEq
+
+/-- `ThreadingBackend.configure(n_jobs)`, `n` being `effective_n_jobs(n_jobs)` (≥ 1): for `n = 1`
+`FallbackToBackend` is raised BEFORE `self._n_jobs` is assigned (the call then runs on a
+`SequentialBackend` and never touches this instance again). -/
+def tConfigure (b : TBackend) (n : Nat) : TBackend :=
+  if n = 1 then b else { b with nJobs := n }
+
+/-- `_get_pool()`: the instance afterwards and the `_processes` of the pool the task is put on. -/
+def tGetPool (v : TVariant) (b : TBackend) : TBackend × Nat :=
+  match b.pool with
+  | none => ({ b with pool := some b.nJobs }, b.nJobs)       -- `ThreadPool(self._n_jobs)`
+  | some k =>
+    match v with
+    | .asIs => (b, k)
+    | .keepLarger => if k < b.nJobs then ({ b with pool := some b.nJobs }, b.nJobs) else (b, k)
+
+/-- `terminate()`: close + terminate (join) the pool, `self._pool = None`. -/
+def tTerminate (v : TVariant) (b : TBackend) : TBackend :=
+  match v with
+  | .asIs => { b with pool := none }
+  | .keepLarger => b
+
+/-- `tasks` consecutive `submit`s (each goes through `_get_pool()`): the pool sizes they see. -/
+def tSubmits (v : TVariant) (b : TBackend) : Nat → TBackend × List Nat
+  | 0 => (b, [])
+  | t + 1 =>
+    let r := tGetPool v b
+    let rest := tSubmits v r.1 t
+    (rest.1, r.2 :: rest.2)
+
+/-- `Parallel(n_jobs=n)(<tasks>)` through this instance (not inside its own `with` block):
+`_initialize_backend` → `configure`; dispatches; `_terminate_and_reset` → `terminate`.
+With `n = 1` the call runs on the fallback `SequentialBackend`: no submit reaches this instance
+and `terminate` is the sequential backend's. -/
+def tPlain (v : TVariant) (b : TBackend) (n tasks : Nat) : TBackend × List Nat :=
+  if n = 1 then (b, [])
+  else
+    let r := tSubmits v (tConfigure b n) tasks
+    (tTerminate v r.1, r.2)
+
+/-- What is seen of one call: the `n_jobs` it resolved, the size of the pool each of its tasks was
+put on, and `self._pool` once the call has returned. -/
+structure TObs where
+  n : Nat
+  sizes : List Nat
+  after : Option Nat
+deriving Repr, DecidableEq
+
+/-- Inside `with Parallel(n_jobs=n) as p:` — `own t`: `p(<t tasks>)`; `foreign m t`: ANOTHER
+`Parallel(n_jobs=m)(<t tasks>)` that resolves to the same backend instance (possible whenever the
+instance is shared: `parallel_config(backend=...)`, the nested instance of a batch). -/
+inductive TItem
+  | own (tasks : Nat)
+  | foreign (n tasks : Nat)
+deriving Repr, DecidableEq
+
+/-- The body of a `with Parallel(n_jobs=n) as p` block (`n` already configured by `__enter__`;
+`seq` = the block fell back to the sequential backend). -/
+def tBody (v : TVariant) (n : Nat) : TBackend → List TItem → TBackend × List TObs
+  | b, [] => (b, [])
+  | b, .own t :: rest =>
+    let r := if n = 1 then (b, []) else tSubmits v b t      -- a managed call does not configure
+    let more := tBody v n r.1 rest
+    (more.1, ⟨n, r.2, r.1.pool⟩ :: more.2)
+  | b, .foreign m t :: rest =>
+    let r := tPlain v b m t
+    let more := tBody v n r.1 rest
+    (more.1, ⟨m, r.2, r.1.pool⟩ :: more.2)
+
+/-- One statement of a history. -/
+inductive TCall
+  | plain (n tasks : Nat)
+  | managed (n : Nat) (body : List TItem)
+deriving Repr, DecidableEq
+
+/-- `with Parallel(n_jobs=n) as p: <body>`: `__enter__` configures, `__exit__` terminates (on the
+sequential fallback when `n = 1`). -/
+def tManaged (v : TVariant) (b : TBackend) (n : Nat) (body : List TItem) : TBackend × List TObs :=
+  let r := tBody v n (tConfigure b n) body
+  (if n = 1 then r.1 else tTerminate v r.1, r.2)
+
+/-- A whole history of statements on one instance; the last component of a step's observations
+(`after`) is read before the next statement starts. -/
+def tRun (v : TVariant) : TBackend → List TCall → TBackend × List TObs
+  | b, [] => (b, [])
+  | b, .plain n t :: rest =>
+    let r := tPlain v b n t
+    let more := tRun v r.1 rest
+    (more.1, ⟨n, r.2, r.1.pool⟩ :: more.2)
+  | b, .managed n body :: rest =>
+    let r := tManaged v b n body
+    let more := tRun v r.1 rest
+    (more.1, r.2 ++ more.2)
+
+/-- No foreign call inside a `with Parallel` block. -/
+def TCall.clean : TCall → Bool
+  | .plain _ _ => true
+  | .managed _ body => body.all (fun i => match i with | .own _ => true | .foreign _ _ => false)
 
 end JoblibModel.NJobs
